@@ -20,6 +20,9 @@ SCRATCH = os.path.join(os.path.dirname(BUILD_ROOT.rstrip("/")), "scratch-c04") i
 
 
 def answer(line, mode, n=0):
+    if "+pre=" in mode:           # every answer starts with the given bytes (hex)
+        mode, hx = mode.split("+pre=")
+        return bytes.fromhex(hx) + answer(line, mode, n)
     if mode.endswith("+num"):     # stateful child: n = number of lines the child has answered before
         return b"%d:<" % n + line.upper() + b">"
     if mode == "echo":
@@ -78,6 +81,30 @@ def gen_cases(c):
         for _ in range(4 if q else 30):
             n = rng.randrange(2, 40)
             cases.append((kspec, sep, [sep.join(rng.choice([b"p", b"q", b"r", b"ss"]) for _ in range(rng.randrange(1, 6))) for _ in range(n)]))
+    # keys of EVERY length class modulo 8 (the hash's 8-byte blocks and its 1..7-byte tail) that differ only in
+    # their last two bytes, swapped (equal XOR, equal sum): whole-line keys and -k keys; distinct keys, both must
+    # reach the child and get their own answer
+    for base in (0, 8, 16):
+        lines = []
+        for r in range(8):
+            n = base + r
+            if n < 2:
+                continue
+            stem = (b"item-customer-id-abcdefgh" * 2)[:n - 2]
+            lines += [stem + b"12", stem + b"21", stem + b"12", stem + b"30", stem + b"03", stem + b"21"]
+        cases.append((None, None, lines))
+        cases.append(("2", b"\t", [b"f%d\t" % (i % 3) + l + b"\ttail" for i, l in enumerate(lines)]))
+        cases.append(("1,3", b",", [l[:len(l) // 2] + b",mid%d," % (i % 2) + l[len(l) // 2:] + b",tail" for i, l in enumerate(lines)]))
+    # key specs written as ADJACENT pieces whose later piece is a multi-field or open-ended range (they select the
+    # same fields as 2-4 / 1- / ...): lines that differ only in a field of the later piece beyond its first
+    for kspec in ("2,3-4", "3-4,2", "1-2,3-", "3-,1-2", "1,2-3", "2-3,4-5", "1,2,3-"):
+        for sep in (b"\t", b","):
+            rows = [[b"a", b"b", b"c", b"d1", b"e1", b"f"], [b"a", b"b", b"c", b"d2", b"e1", b"f"], [b"a", b"b", b"c", b"d1", b"e2", b"f"],
+                    [b"a", b"b", b"c2", b"d1", b"e1", b"f"], [b"z", b"b", b"c", b"d1", b"e1", b"f"], [b"a", b"b", b"c", b"d1", b"e1", b"g"],
+                    [b"a", b"b", b"c", b"d2", b"e1", b"f"], [b"a", b"b", b"c", b"d1", b"e1", b"f"], [b"a", b"b", b"c", b"d1", b"e2", b"f"]]
+            cases.append((kspec, sep, [sep.join(x) for x in rows]))
+            for _ in range(2 if q else 12):
+                cases.append((kspec, sep, [sep.join(rng.choice([b"p", b"q"]) for _ in range(6)) for _ in range(rng.randrange(4, 40))]))
     # beyond the flush interval (4096 sends), beyond pipe capacity, very long lines
     cases.append((None, None, [b"u%d" % i for i in range(9000)]))
     cases.append((None, None, [b"v%d" % (i % 700) for i in range(12000)]))
@@ -194,6 +221,26 @@ def main(argv):
     for mode in ("eager+f3", "stdio+f3", "readall+f3"):
         jobs.append((["-k", "1"], "1", b"\t", [b"k1\tu\t\tw", b"k1\tv\t\tw", b"k2\tu\tC\tw", b"k1\tz\tD\tw", b"k3\tu\t\tw", b"k2\tq\t\tw", b"k3\tu\tE\tw"], mode, 0))
         jobs.append((["-k", "1"], "1", b"\t", [b"e\t1\t\tz"] * 4 + [b"f\t1\tF\tz", b"e\t2\tG\tz"], mode, 0))
+    # more repeats of ONE key than any plausible bound of the hand-off queue (65536) while its first-occurrence line
+    # may still sit in the unflushed 8 KiB stream buffer; and 5000 new lines followed by 100000 repeats
+    jobs.append(([], None, None, [b"same line"] * 70001, "eager", 0))
+    jobs.append(([], None, None, [b"n%d" % i for i in range(5000)] + [b"n%d" % (i % 7) for i in range(100000)], "stdio", 0))
+    # input NOT ending in a newline whose last line is a first occurrence / a repeat: the child must still get every
+    # forwarded line newline-terminated (and nothing else), cache's output ends in a newline
+    unterminated = set()
+    for lines, mode in (([b"alpha", b"beta", b"alpha", b"gamma"], "eager"), ([b"alpha", b"beta", b"alpha"], "eager"), ([b"only"], "readall"),
+                        ([b"alpha", b"beta", b"gamma" * 3000], "echo"), ([b"k\tv1", b"k\tv2", b"j\tv3"], "eager")):
+        unterminated.add(len(jobs))
+        jobs.append((["-k", "1"] if b"\t" in lines[0] else [], "1" if b"\t" in lines[0] else None, b"\t" if b"\t" in lines[0] else None, lines, mode, 0))
+    # OPEN known finding: every stream cache reads through FilePiece (its stdin, the child's stdout) is taken for a
+    # compressed stream if it STARTS with a gzip / bzip2 / xz magic: the tool aborts (or decodes) instead of passing
+    # the text through.  Input whose first line starts with each magic; child whose first answer starts with it.
+    magic_jobs = set()
+    for mg in (b"\x1f\x8b", b"BZh", b"\xfd7zXZ\x00"):
+        magic_jobs.add(len(jobs))
+        jobs.append(([], None, None, [mg + b"ello world", b"second"], "echo", 0))
+        magic_jobs.add(len(jobs))
+        jobs.append(([], None, None, [b"hello", b"world", b"hello"], "eager+pre=" + mg.hex(), 0))
     # a STATEFUL child (numbers its answers): the line for input i is the answer line the child WROTE for the first
     # line with the same key (C04_any_child_answer_of_first_line_with_same_key)
     for mode in ("eager+num", "block:7+num", "readall+num", "stdio+num"):
@@ -228,6 +275,8 @@ def main(argv):
         i, job = ij
         args, kspec, sep, lines, mode, code = job
         data = b"".join(l + b"\n" for l in lines)
+        if i in unterminated:
+            data = data[:-1]
         stages = None
         if i in staged:
             cut = staged[i]
@@ -240,16 +289,19 @@ def main(argv):
     with ThreadPoolExecutor(max_workers=6) as ex:
         results = list(ex.map(do, list(enumerate(jobs))))
     mlines, mjobs = [], []
-    for job, (status, out, log_data, trace, err) in zip(jobs, results):
+    for ji, (job, (status, out, log_data, trace, err)) in enumerate(zip(jobs, results)):
         args, kspec, sep, lines, mode, code = job
         data = b"".join(l + b"\n" for l in lines)
+        if ji in unterminated:
+            data = data[:-1]
         keys = [key_of(l, kspec, sep) for l in lines]
         ndistinct = len(set(keys))
         has_cr = any(l.endswith(b"\r") for l in lines)
         c.count((tuple(args), tuple(lines[:50]), len(lines), mode), nontrivial=len(lines) > 0,
                 bucket="key=%s/dups=%s/%s" % (kspec or "line", "none" if ndistinct == len(keys) else ("all" if ndistinct <= 1 else "some"), mode))
         desc = {"args": args, "child": "harness/children/child.py %s --exit %d" % (mode, code), "lines": len(lines),
-                "input_head_hex": hexs(data[:300]), "input_has_cr_before_newline": "yes" if has_cr else "no",
+                "input_head_hex": hexs(data[:300]), "input_tail_hex": hexs(data[-20:]), "input_has_cr_before_newline": "yes" if has_cr else "no",
+                "stream_starts_with_compression_magic": "yes" if ji in magic_jobs else "no",
                 "how": "printf <input> | cache %s harness/children/child.py %s" % (" ".join(args), mode)}
         if status == "timeout":
             c.violation("hang: cache did not terminate (child %s, %d lines)" % (mode, len(lines)), desc)
@@ -267,7 +319,7 @@ def main(argv):
         if out != exp_out_b:
             c.violation("transparency: cache output differs from the answers of the first line with the same key (%d lines, key %s, child %s): got %r..., expected %r..." % (
                 len(lines), kspec or "whole line", mode, out[:60], exp_out_b[:60]), desc)
-        elif kspec is None and not mode.endswith("+num") and out != b"".join(answer(l, mode) + b"\n" for l in lines):
+        elif kspec is None and not mode.endswith("+num") and ji not in unterminated and out != b"".join(answer(l, mode) + b"\n" for l in lines):
             c.violation("transparency: output differs from running the child directly", desc)
         if log_data != exp_log_b:
             c.violation("child-input: the child did not receive exactly the first-occurrence lines once in order (%d lines, key %s): got %r..., expected %r..." % (
@@ -275,6 +327,8 @@ def main(argv):
         if status != code:
             c.violation("status: cache exited with %s, child exited with %d" % (status, code), desc)
         # ---- model: same key ids, same lines
+        if ji in magic_jobs:
+            continue     # the model's `records` is about plain streams (see the open finding)
         if drv is not None and len(lines) <= 3000:
             ids = {}
             items = []
